@@ -362,7 +362,7 @@ def check_match(r) -> list[Fail]:
     from molli.chem import Atom, BondType
 
     n, edges, els, bts = gen_graph(r["graph"])
-    if n < 2 or not edges:
+    if n < 1:
         return []
     mode = r["mode"]
     adj = {i: set() for i in range(n)}
@@ -373,15 +373,13 @@ def check_match(r) -> list[Fail]:
     seedi = r["seed"] % n
     chosen = [seedi]
     frontier = sorted(adj[seedi])
-    want = 2 + r["size"] % 5
+    want = 1 + r["size"] % 6        # single-atom patterns included
     k = 0
     while len(chosen) < want and frontier:
         nx_ = frontier[r["grow"][k % len(r["grow"])] % len(frontier)]
         k += 1
         chosen.append(nx_)
         frontier = sorted({w for c in chosen for w in adj[c]} - set(chosen))
-    if len(chosen) < 2:
-        return []
     perm = list(range(len(chosen)))
     if r["shuffle"]:
         perm = [perm[i] for i in np.random.default_rng(r["seed"]).permutation(len(perm))]
